@@ -626,29 +626,19 @@ def run(c, facts, tier):
         pn = ct[0].params[0][0] if ct[0].params else None
         okct = t is not None and len(ct[0].body["stmts"]) == 1 and t["k"] == "binary" and t["op"] == "==" and {src(rx.peel(t["lhs"])), src(rx.peel(t["rhs"]))} == {"self", pn}
     c.ob("C01.token-eq", "<Token as ContainsToken<Token>>::contains_token", "one_of(token) matches exactly that token", okct, "contains_token = `%s`" % (src(rx.tail_expr(ct[0].body)) if ct else None))
-    pubk = an.role("parse_pub")
-    pubf = facts.fn(pubk)
-    innerk = an.role("parse_inner")
-    t = rx.tail_expr(pubf.body)
-    okapi, det = None, "shape of %s not recognised" % pubk
-    if t is not None:
-        base, chain = rx.method_chain(t)
-        ms = [m_ for m_, _, _ in chain]
-        callee_ok = base["k"] == "call" and base["f"]["k"] == "path" and base["f"]["segs"][-1] == innerk.split("::")[-1]
-        okapi = callee_ok and ms in (["or_else"], ["map_err"])
-        det = "%s returns %s(..).%s: the tree and the options produced by the inner parser reach the caller unchanged: %s" % (pubk, innerk.split("::")[-1], ".".join(ms), okapi)
-        # statements before the tail may only bind the input
-        pre = [st for st in pubf.body["stmts"][:-1] if not (st["k"] == "let" and st["init"] is not None and src(st["init"]).endswith(".as_ref()"))]
-        if pre:
-            okapi, det = False, det + "; extra statements: %s" % [src(x)[:60] for x in pre]
-    c.ob("C01.api", pubk, "parse() returns the inner result untouched", okapi, det)
-    infb = facts.fn(innerk)
-    from . import c06
+    from .. import glue
 
-    S = c06.inner_summary(b, infb)
-    okr = bool(S.ret) and len(S.ret) == 2 and S.ret[1]["v"] == "applied" and S.ret[1]["fn"] == entry and not S.unknown
-    tl = rx.tail_expr(infb.body)
-    c.ob("C01.api", innerk, "the tree returned is the precedence parser's result", okr, "tail `%s`" % (src(tl)[:100] if tl else None))
+    glue.obligations(c, facts, b, "C01")
+    # the folds clone the first operand (`init.clone()`), the entry clones the result: the copy must be the tree
+    badc = []
+    for tname in (spec["expr_enum"], opn, "Test", "Action"):
+        d_ = facts.enums.get(tname)
+        if d_ is None:
+            continue
+        manual = [i for _, _, i in facts.impls if F.norm_ty(i["self_ty"]).split("<")[0] == tname and i["trait"] and F.norm_ty(i["trait"]).split("::")[-1] in ("Clone", "ToOwned")]
+        if "Clone" not in facts.derives(d_) or manual:
+            badc.append("%s (derives %s, hand-written impls %d)" % (tname, facts.derives(d_), len(manual)))
+    c.ob("C01.node", "ast", "cloning a tree yields the same tree (derived Clone)", not badc, "not derived / hand-written: %s" % badc if badc else "Clone is derived on the tree types; the parser's clone()/to_owned() calls copy faithfully", witness="-true , -false" if badc else None, nontrivial=False)
     okproj = lexproj
     c.ob("C01.lex-whole", lexfn, "lex returns the collected tokens unchanged", okproj, "closure after repeat_till is the projection |(tokens, _)| tokens: %s" % okproj)
     if tier == "thorough":
